@@ -528,7 +528,8 @@ def run(ctx):
     t0 = time.time()
     stride = ctx.scale(9, 5)
     for i, (label, b, kw) in enumerate(inputs):
-        if mon.check(label, b, kw, trace_mem=(i % stride == 0 or len(b) > 4096)):
+        bulk = label == "random" or label.endswith("-trunc") or label.endswith("-flip")
+        if mon.check(label, b, kw, trace_mem=(not bulk or i % stride == 0 or len(b) > 4096)):
             break
         if mon.check_cost(label, b, kw):
             break
